@@ -83,7 +83,7 @@ def schemes():
     return S
 
 
-INITS = ["random-real", "random-complex", "right-canonical", "centre-mid", "product", "mpdm"]
+INITS = ["random-real", "random-complex", "right-canonical", "centre-mid", "product", "mpdm", "small-norm", "large-norm"]
 MODELS = [("elec", 3, [1]), ("eph", 4, [1]), ("spin", 3, [0])]
 # an eigenstate with eigenvalue zero (H|psi> = 0 exactly): the vacuum of the electronic chain
 ZERO_MODELS = [("elec", 3, [0])]
@@ -161,6 +161,10 @@ def make_init(ch, sec, init, H):
     s.canonicalise()           # bond dimensions within the physical limits
     if init == "right-canonical":
         s.ensure_right_canonical()
+    elif init in ("small-norm", "large-norm"):
+        # the propagator is linear: an un-normalised state (norm in the tensors, not in the prefactor) must be propagated as accurately
+        s = s.scale(1e-3 if init == "small-norm" else 40.0)
+        s.coeff = 1
     elif init == "centre-mid":
         s.move_qnidx(ch.n // 2)
     elif init == "mpdm":
@@ -189,7 +193,9 @@ def envelope(sname, order, fam_, hnorm, dt, ncalls):
         # the mean-field equations are regularised (reg_epsilon) and integrated by an adaptive RK45: accuracy ~1e-3 at best
         return 1e-2 * max(1.0, x) * ncalls + 1e-4
     if fam_ == "adaptive":
-        return 2e-3 * max(1.0, x) * ncalls + 1e-5
+        # requested tolerances are 1e-6 (P&C) / 1e-5 (PS, CMF); largest errors observed on the repaired tree over seeds 0..3 and all initial
+        # states: 2e-5 (P&C with a rejected first step), 1.4e-9 (PS), 6.5e-5 (CMF, whose non-centre sites run at solve_ivp's default rtol)
+        return (2e-3 if sname.startswith("cmf") else 2e-4) * max(1.0, x) * ncalls + 1e-6
     raise ValueError(fam_)
 
 
@@ -206,7 +212,14 @@ def evolve_once(s, H, dt, cfg, M=64):
         s.evolve_config = cfg
         s.compress_config = CompressConfig(CompressCriteria.fixed, max_bonddim=M)
     with rhs_budget(40000):
-        return s.evolve(H, dt)
+        if NORMALIZE[0]:
+            return s.evolve(H, dt)
+        return s.evolve(H, dt, normalize=False)
+
+
+# evolve(..., normalize=True) (the default) rescales the tensor part to norm 1 by design; un-normalised initial states are therefore
+# propagated with normalize=False, where linearity  evolve(c psi) = c evolve(psi)  is what the property demands
+NORMALIZE = [True]
 
 
 CONFIG_FIELDS = ("method", "adaptive", "tdvp_cmf_midpoint", "tdvp_cmf_c_trapz", "ivp_solver", "force_ovlp")
@@ -236,6 +249,15 @@ def refusal(e):
 
 
 def run_ladder(desc, seed):
+    from mc.budget import BudgetExceeded
+    NORMALIZE[0] = desc["init"] not in ("small-norm", "large-norm")
+    try:
+        return run_ladder_(desc, seed)
+    finally:
+        NORMALIZE[0] = True
+
+
+def run_ladder_(desc, seed):
     from mc.budget import BudgetExceeded
     ch = Chain(desc["fam"], desc["n"], seed)
     sec = desc["sector"]
